@@ -372,12 +372,19 @@ func (w *c01world) exec(op sim.Op) (rec c01rec, ok bool) {
 	return rec, true
 }
 
+// fp: clause / variant / causal detail. The detail is the last event of the
+// holder whose assignment was contradicted when there is one (the operation that
+// happened to expose it is incidental), else the operation kind.
 func (w *c01world) fp(clause, op string, other int) string {
-	det := ""
 	if other >= 0 && other < pmMaxSub && w.ev[other] != "" {
-		det = "/holder-" + w.ev[other]
+		ev := w.ev[other]
+		switch ev {
+		case "alloc", "reask", "renew", "set":
+			ev = "active" // nothing abnormal happened to the holder
+		}
+		return fmt.Sprintf("%s/%s/holder-%s", clause, w.label, ev)
 	}
-	return fmt.Sprintf("%s/%s/%s%s", clause, w.label, op, det)
+	return fmt.Sprintf("%s/%s/%s", clause, w.label, op)
 }
 
 // judge applies one completed operation to the sequential model.
@@ -478,7 +485,7 @@ func (w *c01world) sweep(after string) {
 				continue
 			}
 			if t, dup := seen[v]; dup {
-				c.Fail("unique", fmt.Sprintf("unique/%s/%s/after-%s", w.label, src, after), "%s: %s reports %s for subscriber %d and for subscriber %d at the same time", w.label, src, v, t, s)
+				c.Fail("unique", fmt.Sprintf("unique/%s/%s", w.label, src), "%s: %s (after %s) reports %s for subscriber %d and for subscriber %d at the same time", w.label, src, after, v, t, s)
 			}
 			seen[v] = s
 		}
@@ -529,6 +536,7 @@ func c01Knobs(r *sim.Rand, cs *sim.Case) {
 	cs.Knobs["qorder"] = int64(r.N(3))
 	cs.Knobs["mac"] = int64(r.N(2))
 	cs.Knobs["maporder"] = int64(r.N(4))
+	cs.Knobs["idsalt"] = int64(r.N(4096))
 }
 
 func c01Gen(r *sim.Rand, tier string) *sim.Case {
@@ -621,7 +629,7 @@ func c01Run(c *sim.Ctx) {
 	for i, u := range w.units {
 		w.uidx[u] = i
 	}
-	w.label = pdVariantLabel(c, d)
+	w.label = pdVariantLabel(c, d, false, true)
 	w.cf = pmCfg{Lease: w.caps.Lease, Grace: int(cs.Knob("grace", 1))}
 	w.startAt = c.S.Now()
 	defer func() {
